@@ -311,19 +311,23 @@ class Initiator(DataExchangeProtocol):
             raise nfc.clf.ProtocolError(error)
 
         def request_retransmission(self, n_retry_nak, rwt, deadline):
-            req = NAK(self.pni, self.did, self.nad)
+            nak = NAK(self.pni, self.did, self.nad)
+            expected = [DEP_RES.LastInformation, DEP_RES.MoreInformation]
+            if req.pfb.fmt == DEP_REQ.MoreInformation:
+                # the answer to a chained information pdu is an ack and
+                # that is what the target then sends again
+                expected.append(DEP_RES.PositiveAck)
             for i in range(n_retry_nak):
                 timeout = min(rwt, deadline - time.time())
                 if timeout <= 0:
                     raise nfc.clf.TimeoutError
                 try:
-                    res = self.send_req_recv_res(req, timeout)
+                    res = self.send_req_recv_res(nak, timeout)
                 except nfc.clf.CommunicationError:
                     continue
                 if res.pfb.fmt == DEP_RES.TimeoutExtension:
                     error = "received NFC-DEP RTOX response to NACK or ATN"
                     raise nfc.clf.ProtocolError(error)
-                expected = (DEP_RES.LastInformation, DEP_RES.MoreInformation)
                 if res.pfb.fmt not in expected:
                     error = "unrecoverable NFC-DEP transmission error"
                     raise nfc.clf.ProtocolError(error)
